@@ -2,7 +2,7 @@
 
 Steps: ["new", ks, vals, mod, kind] | ["get", t, k] | ["getvec", t, ks] | ["set", t, ks, vals] | ["fill", t, v] |
        ["contains", t, ks] | ["containsone", t, k] | ["zeros_like", t] | ["ones_like", t] | ["add", t1, t2] |
-       ["eq", t1, t2] | ["items", t] | ["to_dict", t] | ["count", t, batch]
+       ["eq", t1, t2] | ["items", t] | ["to_dict", t] | ["count", t, batch] | ["countrep", t, v, n, tail, where]
 Keys are integers or 4-limb tuples (2**62-size keys).  After every step every live table is observed through a vector
 lookup of its own keys on a deep copy (shadow read), in construction order."""
 import copy, warnings
@@ -147,6 +147,12 @@ def step(objs, st, o):
             order = [key_int(x, t.kdt) for x in t.ks]
             ks = [x for x in order if x in d] + sorted(x for x in d if x not in order)
             return ["obs", ["dict", [enc_key(x, t.wide) for x in ks], [enc_value(d[x]) for x in ks]]]
+        if k == "countrep":                              # a large batch in compressed form: n copies of one value and a tail
+            v, n, tail, where = key_int(st[2], t.kdt), int(st[3]), [key_int(x, t.kdt) for x in st[4]], st[5]
+            rep = np.full(n, v, dtype=DT2NP[t.kdt])
+            tl = np.array(tail, dtype=DT2NP[t.kdt])
+            t.obj.count(np.concatenate([rep, tl] if where == "head" else [tl, rep]))
+            return ["none"]
         if k == "count":
             b = [key_int(x, t.kdt) for x in st[2]]
             how = o.get("batch", "list")
